@@ -19,9 +19,11 @@ Decides:
    and use the same recorded sign;
  * IF: the branch is chosen on `not to_single(cond).is_zero()` and a line
    number after THEN/ELSE jumps.
-Observed, not armed: for a zero step for_ tests sign() >= 0 while iterate_loop
-tests sgn > 0 (FOR I=1 TO 5 STEP 0 runs once); the property does not fix
-zero-step semantics, so the sibling rule ignores the zero case.
+   A zero step has no direction; a counter that does not move has "passed the
+   end" only if it started beyond it, so both tests must put sign 0 on the
+   ascending side (sign >= 0), and above all must agree with each other: on
+   the pinned tree for_ used >= 0 and iterate_loop > 0, so FOR I=1 TO 5 STEP 0
+   ran once and left the loop (repaired in /repo f70633e0).
 Not decided: visit order of whole programs.
 """
 import ast
@@ -55,6 +57,26 @@ def _stack_ops(fn, stack):
         if isinstance(n, ast.Assign) and norm(n.targets[0]) == 'self.' + stack:
             ops.append(('assign', n))
     return ops
+
+
+def _ascending_for(ctx, test, sign_text):
+    """Truth of a direction test for sign = 1, 0, -1 (the sign expression is replaced by the constant and folded)."""
+    import copy
+    out = {}
+    for v in (1, 0, -1):
+        t = copy.deepcopy(test)
+
+        class R(ast.NodeTransformer):
+            def generic_visit(self, node):
+                if isinstance(node, ast.expr) and norm(node) == sign_text:
+                    return ast.Constant(value=v)
+                return super(R, self).generic_visit(node)
+        t = R().visit(t)
+        try:
+            out[v] = bool(eval(compile(ast.fix_missing_locations(ast.Expression(body=t)), '<direction>', 'eval'), {'__builtins__': {}}, {}))
+        except Exception:
+            out[v] = None
+    return out
 
 
 def check(ctx, rep):
@@ -125,6 +147,8 @@ def check(ctx, rep):
     if len(zero_trip) == 1:
         t = zero_trip[0].test
         ok = norm(t.body) == 'start.gt(stop)' and norm(t.orelse) == 'stop.gt(start)' and norm(t.test) in ('step.sign() >= 0', 'step.sign() > 0')
+        rep.ob('direction.zero-step', 'for_: a zero step is tested like an ascending one (skip only if start > stop)',
+               _ascending_for(ctx, t.test, 'step.sign()') == {1: True, 0: True, -1: False}, norm(t.test), ctx.where(for_))
     rep.ob('direction.zero-trip', 'for_: skip the body iff start is past stop in the step direction', ok,
            norm(zero_trip[0].test) if zero_trip else 'none', ctx.where(for_))
     if zero_trip:
@@ -140,6 +164,8 @@ def check(ctx, rep):
     if len(le) == 1 and isinstance(le[0].value, ast.IfExp):
         t = le[0].value
         ok = norm(t.body) == 'counter_view.gt(stop)' and norm(t.orelse) == 'stop.gt(counter_view)' and norm(t.test) in ('sgn > 0', 'sgn >= 0')
+        rep.ob('direction.zero-step', 'iterate_loop: a zero step is tested like an ascending one (the loop ends only if counter > stop)',
+               _ascending_for(ctx, t.test, 'sgn') == {1: True, 0: True, -1: False}, norm(t.test), ctx.where(it))
     rep.ob('direction.termination', 'iterate_loop: ends iff counter is past stop in the step direction', ok, short(le[0]) if le else 'none', ctx.where(it))
     unp = [n for n in own_nodes(it) if isinstance(n, ast.Assign) and isinstance(n.targets[0], ast.Tuple) and 'self.for_stack[' in norm(n.value)]
     rep.ob('direction.same-sign-record', 'iterate_loop unpacks the frame in the order for_ packed it',
@@ -215,12 +241,16 @@ def variants(ctx):
         return lambda tree: f(mu.find_def(tree, 'Interpreter.' + fname))
 
     return [
+        Va('next-zero-step-descending', 'break', INTERP,
+           in_fn('iterate_loop', lambda fn: mu.replace_expr(fn, mu.text_is('sgn >= 0'), 'sgn > 0')), expect='direction.zero-step'),
+        Va('for-zero-step-descending', 'break', INTERP,
+           in_fn('for_', lambda fn: mu.replace_expr(fn, mu.text_is('step.sign() >= 0'), 'step.sign() > 0')), expect='direction.zero-step'),
         Va('for-zero-trip-wrong-direction', 'break', INTERP,
            in_fn('for_', lambda fn: mu.replace_expr(fn, mu.text_is('start.gt(stop) if step.sign() >= 0 else stop.gt(start)'),
                                                     'stop.gt(start) if step.sign() >= 0 else start.gt(stop)')), expect='direction.zero-trip'),
         Va('iterate-ends-on-ge', 'break', INTERP,
-           in_fn('iterate_loop', lambda fn: mu.replace_expr(fn, mu.text_is('counter_view.gt(stop) if sgn > 0 else stop.gt(counter_view)'),
-                                                            'not stop.gt(counter_view) if sgn > 0 else not counter_view.gt(stop)')), expect='direction.termination'),
+           in_fn('iterate_loop', lambda fn: mu.replace_expr(fn, mu.text_is('counter_view.gt(stop) if sgn >= 0 else stop.gt(counter_view)'),
+                                                            'not stop.gt(counter_view) if sgn >= 0 else not counter_view.gt(stop)')), expect='direction.termination'),
         Va('iterate-never-pops', 'break', INTERP,
            in_fn('iterate_loop', lambda fn: mu.replace_stmt(fn, lambda st: isinstance(st, ast.If) and norm(st.test) == 'loop_ends',
                                                             'if not loop_ends:\n    ins.seek(forpos)')), expect='for.pop-on-end'),
